@@ -183,6 +183,37 @@ func (r *Runner) runHistory(it *spec.Item) {
 						r.progress(fmt.Sprintf("%d|hist|%s|%s|histories", it.Idx, v.Name, cfg))
 						leaves(0)
 					}
+					// long histories: x, then k times the shortest input, then z - for every x and z of the
+					// menu and k around 256 (thorough: also around 65536): per-instance counters that wrap
+					if memo == 0 && d > 0 && len(menu) > 1 && !it.NoTree && (size == sizes[0] || u == us[0]) && len([]rune(menu[len(menu)-1])) < 1000 {
+						ks := []int{255, 256, 257}
+						if it.Depth >= 4 && u == us[0] && size == sizes[0] {
+							ks = append(ks, 511, 512, 65535, 65536)
+						}
+						filler := menu[0]
+						for _, x := range menu {
+							for _, z := range menu {
+								if len(x) > 1000 || len(z) > 1000 {
+									continue
+								}
+								for _, k := range ks {
+									inst := pkg.New(u, size, false)
+									inst.Step(obs.Req{Input: x, Want: want})
+									for j := 0; j < k-1; j++ {
+										inst.Step(obs.Req{Input: filler})
+									}
+									o := inst.Step(obs.Req{Input: z, Want: want})
+									nsteps += int64(k + 1)
+									nodes++
+									if got := ser(o); got != fresh[skey(step{z, ""})] {
+										c := &caseCtx{it, gshow, v.Name, "", z, false, false}
+										hs := fmt.Sprintf("%s -> %d x %s -> %s", show(x), k-1, show(filler), show(z))
+										r.mismatch(c, "C12", "long-history", "fresh parser on "+show(z)+": "+fresh[skey(step{z, ""})], "after history "+hs+": "+got, cfg+"|"+hs)
+									}
+								}
+							}
+						}
+					}
 					c := r.counter("C12")
 					c.States += nodes
 					c.Trans += nsteps
